@@ -65,8 +65,18 @@ def oracle(ctx, search):
     if trc != 0:
         fails.append(Fail(key="trace-crash", what="traced run aborted", stderr=terr[-800:]))
     rc1, cases1, orc1, other1, err1 = waterlib.run_harness(ctx, "c01", c01._args(ctx))
+    # the input of C06_lower_bound_day_evap_refuted replayed on the real kernel: the code must do what the lemma states
+    wit = [x for x in cases1 if x.get("k") == "evap-day-witness"]
+    ctx.extra["evap_day_witness_on_real_kernel"] = wit[:1]
+    if not wit or not wit[0].get("as_stated"):
+        fails.append(Fail(key="evap-day-witness-not-as-stated", what="the real Water kernel does not behave on the witness input as "
+                          "C06_lower_bound_day_evap_refuted states for the model: %s" % wit[:1]))
     for l in orc + [t for t in torc + orc1 if t.startswith(("wg-", "state-not-finite", "fc-below-gw", "fc-after-gw-change", "substep-"))]:
         fails.append(Fail(key=re.sub(r"(value|wg|start|end|fc|limit|maxcaps|w|porges|soil-fc|pore-volume|wmin|soil-wmin|zeit|grw)=\S+", "", l)[:100].strip(), what=l))
     days = [x for x in tcases if x["k"] == "day"]
     ctx.extra["traced_days_checked_for_bounds_and_finiteness"] = len(days)
+    # hypothesis of C06_lower_bound_day_nonevap observed on the real runs
+    ctx.extra["traced_days_where_the_clamped_uptake_does_not_fit_below_field_capacity"] = sum(1 for d in days if d.get("uptake_fits") is False)
+    ctx.extra["traced_days_with_net_evaporation_and_more_than_one_substep"] = sum(
+        1 for d in days if d.get("steps", 1) > 1 and float.fromhex(d["fluss0"]) < 0)
     return fails
